@@ -1109,6 +1109,8 @@ class FileAudit:
                 rroot, _ = root_of(recv)
                 flag = isinstance(rroot, ast.Name) and (
                     self.is_global_name(info, rroot.id)
+                    or rroot.id in NONDET_MODULES
+                    or rroot.id in ('os', 'datetime', 'Path', 'sys')
                     or name in ('iterdir', 'glob', 'rglob', 'stat'))
                 if name in ('choice', 'sample', 'shuffle', 'random', 'time',
                             'copy', 'run', 'node', 'platform', 'id', 'hash',
@@ -1118,6 +1120,12 @@ class FileAudit:
                         and rroot.id not in ('os', 'Path', 'datetime'):
                     flag = False
             if flag:
+                self.emit(func, text_of(node), 'CNondet', live)
+
+        # hash / id handed over as a function (sorted(..., key=hash))
+        for sub in argl:
+            if isinstance(sub, ast.Name) and sub.id in ('hash', 'id') \
+                    and self.is_global_name(info, sub.id):
                 self.emit(func, text_of(node), 'CNondet', live)
 
         # --- mutation of a global through a method call ---
